@@ -503,6 +503,14 @@ func (x *Exec) trCall(t *CCall, env *Env) Val {
 			return Val{T: tBool, S: le(app("s_reg", v.S), top)}
 		}
 		return Val{T: tBool, S: le(v.S, top)}
+	case "fnIs":
+		// fnIs(v, "pkg.(*T).m$bound"): the function value v is that function (bound method or closure)
+		lit, ok := t.Args[1].(*CStr)
+		if !ok {
+			x.fail("fnIs: second argument must be a string literal naming the function")
+		}
+		key := lit.Val
+		return Val{T: tBool, S: eq(arg(0).S, x.funcIDByKey(key))}
 	case "pathJoin":
 		// filepath.Join(a, b) as the executed code computes it (injective uninterpreted function)
 		x.sc.declFun("pathJoin", []string{"Str", "Str"}, "Str")
